@@ -414,6 +414,19 @@ def build_stepwise(case, pool, log):
             return value
 
         rule.__name__ = "rule%d" % index
+        if case.get("rule_objects"):
+            # rules are callables, not necessarily functions: objects that are falsy (an
+            # empty list of corrections that can be called), or that compare equal
+            class RuleObject(list):
+                __call__ = staticmethod(rule)
+                __name__ = rule.__name__
+
+                def __eq__(self, other):
+                    return isinstance(other, list)
+
+                __hash__ = None
+
+            return RuleObject()
         return rule
 
     base = make_rule(0)
@@ -542,6 +555,11 @@ def shard_stepwise(args):
                     for s in supplies) if len(supplies) < 3 else len(supplies))
                 check_case(acc, case, problem, nontrivial, outcome, len(supplies))
                 acc.traces += 1
+                if len(supplies) == 1:
+                    case3 = dict(case, rule_objects=True)
+                    check_case(acc, case3, run_stepwise_case(case3), True,
+                               ("stepwise-rule-objects", len(thresholds)), 1)
+                    acc.traces += 1
                 if len(supplies) == 1 and route in ("direct", "add-call"):
                     for earlier in ([], [1.0], [2.5, 7.0]):
                         if list(earlier) == list(thresholds):
@@ -567,9 +585,20 @@ def run_switch_case(case):
 
     thresholds, targets = case["thresholds"], case["targets"]
     pool = state_pool(0.0, 0.0, 1.0, 1.0)
+    twin = None
+    if "equal" in targets:
+        # pools that compare by value: a controller bound to an *equal* pool passes the
+        # constructor's check, and still every controller acts on the switch's own target
+        if "eqpool" not in _CLASSES:
+            _CLASSES["eqpool"] = type("EqualPool", (make_state_pool(),), {
+                "__eq__": lambda self, other: type(other) is type(self),
+                "__hash__": lambda self: 7})
+        pool = _CLASSES["eqpool"](0.0, 0.0, 1.0, 1.0)
+        twin = _CLASSES["eqpool"](0.0, 0.0, 1.0, 1.0)
     log = []
-    controllers = [recording_controller(log, index, pool if own else None)
-                   for index, own in enumerate(targets)]
+    controllers = [recording_controller(
+        log, index, twin if own == "equal" else pool if own else None)
+        for index, own in enumerate(targets)]
     slaves = []
     for threshold, controller in zip(thresholds, controllers[1:]):
         slaves += [threshold, controller]
@@ -605,7 +634,8 @@ def run_switch_case(case):
                     want_index,
                     " (threshold %r)" % thresholds[want] if want_index else " (default)"))
         if target is not pool:
-            return "switch:controller-target-%s" % ("own" if targets[index] else "None"), (
+            return "switch:controller-target-%s" % (
+                "equal" if targets[index] == "equal" else "own" if targets[index] else "None"), (
                 text + "controller %d acted on %r, not on the switch's target" % (index, target))
         if got_interval != interval:
             return "switch:controller-interval", (
@@ -617,7 +647,8 @@ def run_switch_case(case):
                 % pool.demand)
     for index, controller in enumerate(controllers):
         if controller.target is not pool:
-            return "switch:controller-target-%s" % ("own" if targets[index] else "None"), (
+            return "switch:controller-target-%s" % (
+                "equal" if targets[index] == "equal" else "own" if targets[index] else "None"), (
                 "controller %d has target %r, not the switch's target" % (
                     index, controller.target))
     return None
@@ -636,8 +667,10 @@ def switch_sequences(max_depth):
 def shard_switch(args):
     thresholds, max_depth = args
     acc = Acc()
-    for targets in itertools.product([True, False], repeat=len(thresholds) + 1):
-        for steps in switch_sequences(max_depth):
+    for targets in itertools.product([True, False, "equal"], repeat=len(thresholds) + 1):
+        if "equal" in targets and len(thresholds) > 2:
+            continue
+        for steps in switch_sequences(max_depth if "equal" not in targets else 1):
             case = {"kind": "switch", "thresholds": thresholds, "targets": list(targets),
                     "cinterval": 1, "steps": steps}
             problem = run_switch_case(case)
